@@ -199,15 +199,11 @@ fn oracle_roundtrip(line: &str, esc: &Escaper, x: &Expectation, s: &str, back: &
     let (k, e, o, m) = x.unmake();
     let classify = || -> &'static str {
         let printable = esc.escaped_printable(&e);
-        if k == "equal" && !o && !m && !esc.has_unprintable(&e) && scan_back(&printable).is_some() {
-            "C08:equal-modifier-shaped-roundtrip"
-        } else if (k == "glob" || k == "regex" || k == "no-eol") && esc.has_unprintable(&e) {
-            "C08:escaped-pattern-roundtrip"
-        } else if k == "escaped" && !esc.has_unprintable(&e) && e.contains(&b'\\') {
-            // printable bytes with a literal backslash are written as they are, and read back as an escape
-            "C08:escaped-backslash-roundtrip"
-        } else if k == "equal" && esc.has_unprintable(&e) && printable.ends_with(" (no-eol)") {
-            // EscapedRule::make drops a trailing ` (no-eol)` (cram compatibility)
+        // the one open finding: EscapedRule::make drops a trailing ` (no-eol)` (cram compatibility),
+        // so bytes ending in it do not survive being written as an `escaped` expectation
+        // (equal with unprintable content is written as escaped). Everything else is a regression
+        // of fix 2c946ec and reported under the generic class.
+        if ((k == "equal" && esc.has_unprintable(&e)) || k == "escaped") && printable.ends_with(" (no-eol)") {
             "C08:escaped-no-eol-strip-roundtrip"
         } else {
             "C08:roundtrip"
@@ -295,7 +291,7 @@ fn case(prop: &str, line: &str, esc: Option<&Escaper>, stream_tag: &str) -> Case
                 "<panic>".to_string()
             }
         };
-        esc_tbl = format!("{}>{}:{}", hex(&e), esc.has_unprintable(&e) as u8, hex(esc.escaped_printable(&e).as_bytes()));
+        esc_tbl = format!("{}>{}:{}:{}", hex(&e), esc.has_unprintable(&e) as u8, hex(esc.escaped_printable(&e).as_bytes()), hex(String::from_utf8_lossy(&e).as_bytes()));
         mk_entries(&s, &mut mk);
         let back = if s == line { (pr.clone(), Some(x.clone())) } else { real_parse(&s) };
         impl_out = format!("{} | {} | {}", impl_out, hex(s.as_bytes()), show(&back.0));
@@ -366,7 +362,7 @@ fn structured(idx: u64) -> Option<String> {
     const WH: [&str; 7] = [" ", "\t", "\u{a0}", "\u{3000}", "\u{85}", "", "  "];
     const KI: [&str; 16] = ["", "equal", "eq", "no-eol", "escaped", "esc", "glob", "gl", "regex", "re", "equa", "globx", "Glob", "e q", "no-eo", "(re"];
     const QU: [&str; 7] = ["", "?", "*", "+", "??", "+*", "!"];
-    const TL: [&str; 5] = ["", " ", ")", " (no-eol)", " (escaped)"];
+    const TL: [&str; 6] = ["", " ", ")", " (no-eol)", " (escaped)", " (no-eol) (esc)"];
     let n = (PRE.len() * WH.len() * KI.len() * QU.len() * TL.len()) as u64;
     if idx >= n {
         return None;
@@ -383,7 +379,7 @@ fn structured(idx: u64) -> Option<String> {
     let t = TL[i % TL.len()];
     Some(format!("{p}{w}({k}{q}){t}"))
 }
-const STRUCTURED_N: u64 = 9 * 7 * 16 * 7 * 5;
+const STRUCTURED_N: u64 = 9 * 7 * 16 * 7 * 6;
 
 fn random_line(rng: &mut Rng) -> String {
     const PIECES: [&str; 30] = [
